@@ -283,3 +283,210 @@ func init() {
 			c.Check(n >= 1, "fr-exit-site", c.P.Pos(psa.Pos()), fmt.Sprintf("%d SACK-side exit site(s)", n), "no SACK-side exit from fast recovery found")
 		}})
 }
+
+// sliceBases: the values a slice expression is built on, following append
+// chains and φ: nil constants, make(), slice literals, or re-slices of
+// something else (returned as the sliced value).
+func sliceBases(v ssa.Value, d int, seen map[ssa.Value]bool, out *[]ssa.Value) {
+	if v == nil || d > 8 || seen[v] {
+		return
+	}
+	seen[v] = true
+	switch x := v.(type) {
+	case *ssa.Phi:
+		for _, e := range x.Edges {
+			sliceBases(e, d+1, seen, out)
+		}
+	case *ssa.Call:
+		if b, ok := x.Call.Value.(*ssa.Builtin); ok && b.Name() == "append" {
+			sliceBases(x.Call.Args[0], d+1, seen, out)
+			return
+		}
+		if rs := helperReturns(x, 0); rs != nil {
+			for _, r := range rs {
+				sliceBases(r, d+1, seen, out)
+			}
+			return
+		}
+		*out = append(*out, v)
+	case *ssa.Extract:
+		if call, ok := x.Tuple.(*ssa.Call); ok {
+			if rs := helperReturns(call, x.Index); rs != nil {
+				for _, r := range rs {
+					sliceBases(r, d+1, seen, out)
+				}
+				return
+			}
+		}
+		*out = append(*out, v)
+	case *ssa.Slice:
+		*out = append(*out, v)
+	default:
+		*out = append(*out, v)
+	}
+}
+
+func init() {
+	register(&Rule{ID: "C12.R12", Props: []string{"C12", "C03"}, Engine: "E1-sibling",
+		Title:   "error-cause framing agrees: the ABORT/ERROR encoders concatenate causes without padding, so the decoders must advance by exactly the cause's own length field (errorCauseHeader.length() returns the len field); if one side pads between causes the other must too",
+		MinInst: 3,
+		Run: func(c *RuleCtx) {
+			lenF := c.field("errorCauseHeader", "len")
+			acc := c.Fn("errorCauseHeader.length")
+			gp := c.Fn("getPadding")
+			padDec := len(callsIn(acc, gp)) > 0
+			okAcc := true
+			for _, r := range allReturns(acc) {
+				if !IsLoadOf(lenF)(retResults(r)[0]) {
+					okAcc = false
+				}
+			}
+			padEnc := false
+			for _, n := range []string{"chunkAbort.marshal", "chunkError.marshal"} {
+				if len(callsInDeep(c.Fn(n), gp, 1)) > 0 {
+					padEnc = true
+				}
+			}
+			for _, n := range []string{"chunkAbort.unmarshal", "chunkError.unmarshal"} {
+				if len(callsIn(c.Fn(n), gp)) > 0 {
+					padDec = true
+				}
+			}
+			c.Check(padEnc == padDec, "cause-padding-agrees", c.P.Pos(acc.Pos()), fmt.Sprintf("encoder pads between causes: %v, decoder skips padding: %v", padEnc, padDec),
+				fmt.Sprintf("encoders pad between causes: %v but decoders skip padding: %v — a multi-cause chunk the endpoint emits does not decode", padEnc, padDec))
+			c.Check(okAcc || padDec, "cause-length-is-wire-length", c.P.Pos(acc.Pos()), "errorCauseHeader.length() is the cause's length field", "errorCauseHeader.length() is not the length field")
+			pacc := c.Fn("paramHeader.length")
+			pl := c.field("paramHeader", "len")
+			okP := true
+			for _, r := range allReturns(pacc) {
+				if !IsLoadOf(pl)(retResults(r)[0]) {
+					okP = false
+				}
+			}
+			c.Check(okP, "param-length-is-wire-length", c.P.Pos(pacc.Pos()), "paramHeader.length() is the parameter's length field (padding is added by the callers)", "paramHeader.length() is not the length field: callers add padding again")
+		}})
+
+	register(&Rule{ID: "C14.R8", Props: []string{"C14", "C18"}, Engine: "E3",
+		Title:   "an incoming stream reset always ends the read side with EOF: onInboundStreamReset stores io.EOF into readErr unconditionally (a latched, clearable deadline error must not keep EOF from being recorded) and wakes the readers",
+		MinInst: 2,
+		Run: func(c *RuleCtx) {
+			fn := c.Fn("Stream.onInboundStreamReset")
+			re := c.field("Stream", "readErr")
+			n := 0
+			for _, a := range c.storesInRegion(fn, re) {
+				if !mayBeGlobal(a.Val, "io", "EOF", 0, map[ssa.Value]bool{}) {
+					continue
+				}
+				n++
+				var extra []string
+				for _, f := range localFactsUpTo(a.Instr, fn) {
+					extra = append(extra, fmt.Sprintf("%s=%v", shortValue(c.P, f.Cond), f.Taken))
+				}
+				c.Check(len(extra) == 0, "reset-sets-eof-unconditionally", c.Pos(a.Instr), "readErr = io.EOF on every path", "EOF is recorded only if "+strings.Join(extra, " ∧ ")+": a reader whose deadline had expired never sees the end of the stream")
+			}
+			c.Check(n == 1, "reset-sets-eof", c.P.Pos(fn.Pos()), "one store of io.EOF", fmt.Sprintf("%d stores of io.EOF into readErr", n))
+			okB := entryMustPass(fn, func(in ssa.Instruction) bool {
+				ci, ok := in.(ssa.CallInstruction)
+				if _, isDefer := in.(*ssa.Defer); isDefer || !ok {
+					return false
+				}
+				sc := ci.Common().StaticCallee()
+				return (sc != nil && sc.Name() == "Broadcast") || helperAlwaysPasses(in, func(x ssa.Instruction) bool {
+					cj, ok := x.(ssa.CallInstruction)
+					if !ok {
+						return false
+					}
+					s2 := cj.Common().StaticCallee()
+					return s2 != nil && s2.Name() == "Broadcast"
+				}, 0)
+			})
+			c.Check(okB, "reset-wakes-readers", c.P.Pos(fn.Pos()), "readers are always woken", "a path through onInboundStreamReset does not wake blocked readers")
+		}})
+
+	register(&Rule{ID: "C14.R9", Props: []string{"C14", "C02"}, Engine: "E7-alias",
+		Title:   "a stored reset request owns its stream list: the slice kept in paramOutgoingResetRequest.streamIdentifiers (retained in a.reconfigs for retransmission) is built on nil, make() or a literal — never on a re-slice of reusable storage such as a scratch field — so a later gather round cannot overwrite the streams an outstanding request names",
+		MinInst: 1,
+		Run: func(c *RuleCtx) {
+			sids := c.field("paramOutgoingResetRequest", "streamIdentifiers")
+			ks := keyer{}
+			n := 0
+			for _, fn := range c.P.Funcs {
+				if strings.Contains(c.P.FuncName(fn), "unmarshal") {
+					continue // decoded from the wire into a fresh object
+				}
+				for _, a := range c.storesIn(fn, sids) {
+					n++
+					var bases []ssa.Value
+					sliceBases(a.Val, 0, map[ssa.Value]bool{}, &bases)
+					bad := ""
+					for _, b := range bases {
+						switch x := unconv(b).(type) {
+						case *ssa.Const:
+							// nil
+						case *ssa.MakeSlice:
+						case *ssa.Slice:
+							if al, ok := x.X.(*ssa.Alloc); ok && al.Heap {
+								continue // slice literal
+							}
+							if f, _ := loadedField(x.X); f != nil {
+								bad = "a re-slice of field " + f.Name()
+							} else {
+								bad = "a re-slice of " + shortValue(c.P, x.X)
+							}
+						case *ssa.Parameter:
+							// handed in by the caller: judged at the call sites through helperReturns/phi; a parameter of an exported API is fresh by contract
+						default:
+							if f, _ := loadedField(b); f != nil {
+								bad = "field " + f.Name() + " itself"
+							}
+						}
+					}
+					c.Check(bad == "", ks.key("request-owns-streams@"+c.P.FuncName(fn)), c.Pos(a.Instr), "stream list built on fresh storage", "the stored request's stream list is "+bad+": a later round overwrites it and a retransmitted request names the wrong streams")
+				}
+			}
+			c.Check(n >= 1, "request-stream-stores", "", fmt.Sprintf("%d store(s) of a request's stream list", n), "no store to paramOutgoingResetRequest.streamIdentifiers found")
+		}})
+
+	register(&Rule{ID: "C19.R11", Props: []string{"C19", "C02"}, Engine: "E3",
+		Title:   "a (re)started retransmission timer begins from the RTO it is given: in rtxTimer.start the stores rto = parameter and nRtos = 0 precede the computation of the first interval and the arming of the Go timer",
+		MinInst: 3,
+		Run: func(c *RuleCtx) {
+			st := c.Fn("rtxTimer.start")
+			nR, rto := c.field("rtxTimer", "nRtos"), c.field("rtxTimer", "rto")
+			calc := c.Fn("rtxTimer.calculateNextTimeout")
+			var uses []ssa.Instruction
+			forEachInstr(st, func(in ssa.Instruction) {
+				ci, ok := in.(ssa.CallInstruction)
+				if !ok {
+					return
+				}
+				sc := ci.Common().StaticCallee()
+				if sc == calc || (sc != nil && sc.Name() == "Reset" && sc.Pkg != nil && sc.Pkg.Pkg.Path() == "time") || (sc != nil && sc.Name() == "calculateNextTimeout") {
+					uses = append(uses, in)
+				}
+			})
+			c.Check(len(uses) >= 1, "start-arms", c.P.Pos(st.Pos()), fmt.Sprintf("%d interval computation / arming site(s)", len(uses)), "start does not arm the timer")
+			for _, f := range []struct {
+				fld  *types.Var
+				name string
+				val  VPat
+			}{{nR, "nRtos = 0", IsConstInt(0)}, {rto, "rto = parameter", IsParam(st, 1)}} {
+				ok := false
+				for _, a := range c.storesIn(st, f.fld) {
+					if !f.val(a.Val) {
+						continue
+					}
+					all := true
+					for _, u := range uses {
+						if !InstrDominates(a.Instr, u) {
+							all = false
+						}
+					}
+					if all {
+						ok = true
+					}
+				}
+				c.Check(ok, "start-resets-before-arming:"+f.fld.Name(), c.P.Pos(st.Pos()), f.name+" precedes the first interval", f.name+" does not precede the computation of the first interval: a restarted timer starts from the previous run's back-off")
+			}
+		}})
+}
